@@ -5,9 +5,9 @@ from .. import core, iogen
 from . import c01
 
 ID = "C02"
-MODULE = "Check.IoCheck"
+MODULE = "Check.C02Check"
 CASE_TYPE = "IOcase"
-CORR, ORACLE, HYP = "IOcorr", "C02oracle", "IOtrue"
+CORR, ORACLE, HYP = "IOcorr", "C02oracle", "C02hyp"
 K = 30
 DEN = 2 ** K
 RULE = ("random textgrids (1-4 tiers, both kinds) whose names and labels are drawn from letters, digits, quotes, doubled quotes, "
